@@ -23,6 +23,7 @@ func c17define() c17prog {
 	opt.String("str", "", opt.Alias("string"))
 	opt.String("choice", "", opt.ValidValues("apple", "apricot", "banana"))
 	opt.Int("level", 0, opt.SuggestedValues("1", "10", "2"))
+	opt.String("define", "", opt.SuggestedValues("os=linux", "os=darwin", "arch=arm"))
 	opt.SetCommandFn(fn)
 	cmd := opt.NewCommand("cmd", "a command").ArgCompletions("alpha", "alps", "beta")
 	cmd.Bool("cmdopt", false)
@@ -42,8 +43,8 @@ func c17define() c17prog {
 }
 
 // names available at each level reached by the earlier words
-var c17optsRoot = []string{"flag", "f", "str", "string", "choice", "level", "help", "?"}
-var c17optsCmd = []string{"flag", "f", "str", "string", "choice", "level", "help", "?", "cmdopt"}
+var c17optsRoot = []string{"flag", "f", "str", "string", "choice", "level", "define", "help", "?"}
+var c17optsCmd = []string{"flag", "f", "str", "string", "choice", "level", "define", "help", "?", "cmdopt"}
 var c17cmdsRoot = []string{"cmd", "wrap", "cmdother", "help"}
 var c17cmdsCmd = []string{"sub", "help", "alpha", "alps", "beta"}
 var c17cmdsSub = []string{"help"}
@@ -139,7 +140,7 @@ func VerifC17_Completion() {
 		tok := k
 		if strings.HasPrefix(w, "-") {
 			tok = "--" + k
-			if k == "str" || k == "string" || k == "choice" || k == "level" {
+			if k == "str" || k == "string" || k == "choice" || k == "level" || k == "define" {
 				tok += "=1"
 				if k == "choice" {
 					tok = "--choice=apple"
@@ -156,11 +157,11 @@ func VerifC17_Completion() {
 func VerifC17_Values() {
 	vNativeReset()
 	zsh := vBool("zsh")
-	which := vInt("which", 0, 1)
+	which := vInt("which", 0, 2)
 	pre := vString("pre")
 	vAssume(vMatches(pre, `[^\t\n\f\r =\x00]*`))
-	name := []string{"choice", "level"}[which]
-	values := [][]string{{"apple", "apricot", "banana"}, {"1", "10", "2"}}[which]
+	name := []string{"choice", "level", "define"}[which]
+	values := [][]string{{"apple", "apricot", "banana"}, {"1", "10", "2"}, {"os=linux", "os=darwin", "arch=arm"}}[which]
 	vSetenv("COMP_LINE", "prog --"+name+"="+pre)
 	if zsh {
 		vSetenv("ZSHELL", "true")
